@@ -144,6 +144,8 @@ def pools(ctx):
     out.append(("wrap", pick(list(dict.fromkeys(d_wrap(corpus))), 3000), None))
     out.append(("multi", pick(list(d_multi()), 1500), None))
     out.append(("multi-pairs", pick(list(d_multi_pairs()), 1500), None))
+    out.append(("container-pairs", pick(docs.container_pairs(), 800), None))
+    out.append(("marker-variants", pick(docs.corpus_marker_variants(), 1200), None))
     for name in ("pragma-clean", "pragma-inside"):
         sel = pick([(d, k) for (p, d, k) in prag if p == name], 2000)
         out.append((name, [d for d, _ in sel], [k for _, k in sel]))
